@@ -654,6 +654,10 @@ class Ref:
         (a static over-approximation of 'the options it depends on')."""
         from .optspace import restrict
 
+        from .terms import walk
+
+        if any(n[0] == "all" for n in walk(t)):
+            return repr(freeze(o))  # AllOptions depends on the whole dictionary
         return repr(freeze(restrict(o, self._mentioned(t))))
 
     def _switch_ds(self, p, body, o):
